@@ -87,10 +87,15 @@ func knownEntry(v *Violation) (KnownFinding, bool) {
 	if f, ok := knownOpen[v.Prop+"|"+v.Key]; ok {
 		return f, true
 	}
-	if i := strings.Index(v.Key, ":"); i >= 0 {
+	for i := strings.Index(v.Key, ":"); i >= 0 && i < len(v.Key); {
 		if f, ok := knownOpen[v.Prop+"|*"+v.Key[i:]]; ok {
 			return f, true
 		}
+		j := strings.Index(v.Key[i+1:], ":")
+		if j < 0 {
+			break
+		}
+		i += 1 + j
 	}
 	return KnownFinding{}, false
 }
